@@ -318,3 +318,34 @@ for tpk in (['none'], ['obj']):
         key = '%s::TimeThread.thread_player#%s-%s' % (F, tpk[0], park[0].replace(':', '_'))
         REGISTRY[key] = REGISTRY.pop('%s::TimeThread.thread_player' % F)
         REGISTRY[key].key = key
+
+
+# ---- seeding (C10: a routine's random stream depends only on the seed it is given) ----
+def seed_post(c):
+    xv = c._params['x']
+
+    def same(a):
+        if a is xv:
+            return z3.BoolVal(True)
+        if isinstance(a, V) and a.k == xv.k and a.k in ('int', 'real', 'bool'):
+            return a.z == xv.z
+        return z3.BoolVal(isinstance(a, V) and a.k == 'none' and xv.k == 'none')
+    made = [e for e in c.trace if e[0] == 'ext' and e[1] == 'random.Random']
+    if len(made) != 1 or len(made[0][2]) != 1:
+        return z3.BoolVal(False)
+    rgen = c.post.self.v('_rgen')
+    return z3.And(same(made[0][2][0]),                 # the generator is made from the seed itself
+                  same(c.post.self.v('_rand_seed')),   # which is what rand_seed reads back
+                  z3.BoolVal(rgen.k == 'obj' and str(rgen.oid).startswith('new!random.Random')))
+
+
+contract(F, 'TimeThread.rand_seed@setter', props=('C10',),
+         params={'self': 'self', 'x': ['int', 'real', 'none', 'str', 'bytes']},
+         modifies=[('self', '_rand_seed'), ('self', '_rgen')],
+         ensures=[('fresh-generator-from-exactly-the-given-seed', seed_post)],
+         fields={'TimeThread': {'_rgen': 'obj', '_rand_seed': 'none'}, 'Main': MAIN_FIELDS},
+         class_modules={'TimeThread': F}, native=False,
+         opts={'opaque_ext': ('random.Random',)},
+         note='random.Random is external: that equal seeds give equal streams, and that str/bytes '
+              'seeds are digested independently of the hash seed, is CPython\'s documented '
+              'behaviour and assumed')
